@@ -192,6 +192,8 @@ def build_script(ctx, case):
         else:
             s.run("a", text)
         desc = "%s [%s] via %s" % (name, ",".join(names), case["deliver"])
+        if case.get("asis") and re.search(r"(?m)^#expect error\b", text):
+            exp["must_fail"] = True      # a kept input whose calculation cannot succeed: a return of 0 would be a silent wrong result
         exp["unit_op"] = {"runfile": "runfile", "acc": "runacc", "run": "run"}[case["deliver"]]
     elif case["kind"] == "dbmut":
         db = "database/phreeqc.dat"
